@@ -2580,6 +2580,15 @@ impl FromStr for PolicySet {
 impl PolicySet {
     /// Build the policy set AST from the EST
     fn from_est(est: &est::PolicySet) -> Result<Self, PolicySetError> {
+        // A template link must name a template. (The core `PolicySet` would
+        // happily "link" a static policy, which has no slots; the result
+        // cannot be represented here.)
+        if est.template_links.iter().any(|link| {
+            !est.templates.contains_key(&link.template_id)
+                && est.static_policies.contains_key(&link.template_id)
+        }) {
+            return Err(policy_set_errors::ExpectedTemplate::new().into());
+        }
         let ast: ast::PolicySet = est.clone().try_into()?;
         #[expect(
             clippy::expect_used,
